@@ -378,6 +378,18 @@ class Ctx:
               "violations": len(self.violations)}
         EVID.mkdir(parents=True, exist_ok=True)
         (EVID / f"{self.prop}.json").write_text(json.dumps(ev, indent=1, default=str) + "\n")
+        # per-tier digest of the last run (evidence/<id>.json is overwritten by whichever tier ran last);
+        # DESIGN.md section 12 is generated from these
+        try:
+            (EVID / "summary").mkdir(parents=True, exist_ok=True)
+            digest = {"property_id": self.prop, "tier": self.tier, "seed": self.seed, "wall_s": round(wall, 1),
+                      "violations": len(self.violations),
+                      "known_findings_hit": cov.get("known_findings_hit", {}),
+                      **{k: cov.get(k) for k in ("states", "transitions", "evaluations", "traces_validated_against_impl",
+                                                 "distinct_nontrivial", "exhaustive")}}
+            (EVID / "summary" / f"{self.prop}.{self.tier}.json").write_text(json.dumps(digest, indent=1, default=str) + "\n")
+        except OSError:
+            pass
         for k, v in sorted(self.known_hits.items()):
             print(f"KNOWN-FINDING: property={self.prop} {v['f']['what']} [{k}; {v['n']} case(s)]")
         for p in replay_paths:
